@@ -146,6 +146,11 @@ def lp_tree(r, big=False):
             bounds.append(dict(k="lu", var=v, lo=a, up=b))
     r.shuffle(bounds)
     ints = [v for v in names if r.random() < .2]
+    # an integer column WITHOUT any bound line is binary; one with an explicit infinite upper bound is a general integer: both shapes must occur
+    bounded = {b["var"] for b in bounds}
+    for v in ints:
+        if v not in bounded and r.random() < .5:
+            bounds.insert(r.randint(0, len(bounds)), dict(k="u", var=v, up=dict(neg=False, inf=True, lit=[])))
     return dict(minmax=r.choice(["MAX", "MAXIMUM", "MAXIMIZE", "MIN", "MINIMUM", "MINIMIZE"]),
                 obj=dict(name=("" if r.random() < .5 else "cost"), terms=obj), rows=rows, bounds=bounds, ints=ints)
 
@@ -171,6 +176,10 @@ def render_lp(tree, r):
             return ("-" if b["neg"] else r.choice(["", "+"])) + _case(r, r.choice(["inf", "infinity"])) + " "
         return ("-" if b["neg"] else "") + "".join(b["lit"])
 
+    def comment():
+        # comments may contain anything: colons, keywords, operators, numbers
+        return "\\" + r.choice([" a comment", " note: see c_1: x + y >= 2", " End", "st", " 1/0 <= free", ": : :", " bounds x <= 4 \\ nested", ""]) 
+
     def expr(terms):
         s = ""
         cnt = 0
@@ -188,15 +197,16 @@ def render_lp(tree, r):
             if cnt % r.randint(2, 5) == 0 and k + 1 < len(terms):
                 s += "\n" + sp()
                 if r.random() < .2:
-                    s += "\\ comment in the middle\n" + sp()
+                    s += comment() + "\n" + sp()
         return s
     o = tree["obj"]
     out.append(sp() + (o["name"] + ":" if o["name"] else "") + expr(o["terms"]) + "\n")
     out.append(r.choice(["Subject To", "SUBJECT TO", "subject to", "ST", "st", "St"]) + "\n")
     for rw in tree["rows"]:
-        out.append(sp() + (rw["name"] + ":" if rw["name"] else "") + expr(rw["terms"]) + osp() + rw["op"] + osp() + ("-" if rw["rneg"] else "") + "".join(rw["rhs"]) + "\n")
+        out.append(sp() + (rw["name"] + ":" if rw["name"] else "") + expr(rw["terms"]) + osp() + rw["op"] + osp() + ("-" if rw["rneg"] else "") + "".join(rw["rhs"])
+                   + (sp() + comment() if r.random() < .2 else "") + "\n")
         if r.random() < .15:
-            out.append("\\ a comment line\n")
+            out.append(comment() + "\n")
     if tree["bounds"]:
         out.append(_case(r, r.choice(["Bounds", "Bound"])) + "\n")
         for b in tree["bounds"]:
@@ -381,7 +391,34 @@ def usable_for_roundtrip(lp):
     return lp["n"] > 0 and len(used) == lp["n"] and any(any(v != 0 for _, v in row) for row in lp["A"])
 
 
+def wide_lp(r):
+    """many columns, long coefficients, some columns absent from the objective: expressions that wrap lines in the writers"""
+    n = r.randint(6, 30)
+    m = r.randint(2, 4)
+    lp = lpfam.feasible_bounded(r, m, n)
+    long = r.random() < .6
+    for j in range(n):
+        if r.random() < .35:
+            lp["obj"][j] = F(0)
+        elif long:
+            lp["obj"][j] = F(r.choice([1, -1]) * (r.getrandbits(r.choice([60, 200, 400])) + 1), r.getrandbits(r.choice([1, 60, 200])) + 1)
+    for i in range(m):
+        lp["A"][i] = [(j, (F(r.getrandbits(150) + 1, r.getrandbits(100) + 1) if long and r.random() < .5 else v)) for j, v in lp["A"][i] if r.random() < .8]
+    for j in range(n):          # precondition: every column is used somewhere
+        if lp["obj"][j] == 0 and not any(jj == j and v != 0 for row in lp["A"] for jj, v in row):
+            lp["A"][r.randrange(m)].append((j, F(r.choice([1, 2, -3]))))
+    for i in range(m):
+        lp["A"][i].sort()
+    if r.random() < .5:
+        lp["cname"] = ["%s%d" % (r.choice(["x", "longer_name_", "v" * 20 + "_", "c"]), j) for j in range(n)]
+    return lp
+
+
 def rt_lp(r, big=False):
+    if r.random() < .15:
+        lp = wide_lp(r)
+        if usable_for_roundtrip(lp):
+            return lp
     for _ in range(50):
         lp = lpfam.family(r.choice(["boxed", "fixedcols", "random", "feasible", "special", "degenerate"]), r)
         if usable_for_roundtrip(lp) and all(F(v) >= 0 for v in lp["range"]):
@@ -458,6 +495,47 @@ def mutate_bytes(data, r):
     return bytes(b)
 
 
+SECTION_HEADS = ("NAME", "OBJSENSE", "OBJSENSE", "OBJNAME", "ROWS", "COLUMNS", "RHS", "RANGES", "BOUNDS", "ENDATA", "REFROW",
+                 "MINIMIZE", "MAXIMIZE", "MINIMUM", "MAXIMUM", "MIN", "MAX", "SUBJECT TO", "ST", "S.T.", "SUCH THAT", "BOUNDS", "BOUND", "INTEGER", "INTEGERS", "GENERAL",
+                 "GENERALS", "BINARY", "BINARIES", "END", "PROBLEM")
+
+
+def mutate_sections(text, r):
+    """structure-level mutations: whole sections (header line + its data lines) are repeated, moved in front of the sections they
+    depend on, dropped or swapped - the order rules of the readers are state machines of their own"""
+    lines = text.split("\n")
+    secs, cur = [], []
+    for ln in lines:
+        head = ln.strip().upper()
+        first = head.split(" ")[0] if head else ""
+        is_head = bool(ln) and not ln[0].isspace() and (first in SECTION_HEADS or head in SECTION_HEADS)
+        if is_head and cur:
+            secs.append(cur); cur = []
+        cur.append(ln)
+    if cur:
+        secs.append(cur)
+    if len(secs) < 2:
+        return text
+    for _ in range(r.randint(1, 2)):
+        k = r.random()
+        i = r.randrange(len(secs))
+        if k < .35:                                   # copy a section to an earlier place (before what it depends on) and keep the original
+            secs.insert(r.randint(0, i), list(secs[i]))
+        elif k < .55:                                 # repeat in place / later
+            secs.insert(r.randint(i, len(secs)), list(secs[i]))
+        elif k < .7:                                  # move
+            x = secs.pop(i); secs.insert(r.randint(0, len(secs)), x)
+        elif k < .8:
+            secs.pop(i)
+        elif k < .9:                                  # header only, copied elsewhere
+            secs.insert(r.randint(0, len(secs)), [secs[i][0]])
+        else:                                         # data lines of one section appended to another
+            j = r.randrange(len(secs)); secs[j] = secs[j] + secs[i][1:]
+        if not secs:
+            break
+    return "\n".join(ln for sc in secs for ln in sc)
+
+
 def robustness_scenarios(seed, count):
     """C11: grammar-derived LP/MPS/basis files with token-level and byte-level mutations, truncations, long names, compressed variants"""
     import gzip, bz2
@@ -473,8 +551,12 @@ def robustness_scenarios(seed, count):
         else:
             body = "NAME b\n XU x c1\n XL y c2\n UL x\n LL y\nENDATA\n"
         m = r.random()
-        if m < .45:
+        if m < .35:
             data = mutate_tokens(body, r).encode("latin-1", "replace")
+        elif m < .55:
+            data = mutate_sections(body, r).encode("latin-1", "replace")
+            if r.random() < .3:
+                data = mutate_tokens(data.decode("latin-1"), r).encode("latin-1", "replace")
         elif m < .9:
             data = mutate_bytes(body.encode(), r)
         else:
@@ -519,3 +601,23 @@ def mps_tree_roundtrippable(tree):
         if any(v != 0 and k in real for k, v in acc.items()):
             anyrow = True
     return anyrow
+
+
+def lp_tree_roundtrippable(tree):
+    """precondition of C08 on a generated LP tree: every column has a non-zero (summed) coefficient in the objective or a row,
+    some row is non-empty after summation, no row sums to the empty row (generator-side helper, not an oracle)"""
+    def coefs(terms):
+        acc = {}
+        for t in terms:
+            v = lit_value("".join(t["coef"])) if t["coef"] else F(1)
+            acc[t["var"]] = acc.get(t["var"], 0) + (-v if t["neg"] else v)
+        return acc
+    used = {v for v, c in coefs(tree["obj"]["terms"]).items() if c != 0}
+    allv = {t["var"] for t in tree["obj"]["terms"]}
+    for rw in tree["rows"]:
+        c = coefs(rw["terms"])
+        if not any(x != 0 for x in c.values()):
+            return False
+        used |= {v for v, x in c.items() if x != 0}
+        allv |= set(c)
+    return used == allv and len(tree["rows"]) > 0
